@@ -1845,7 +1845,25 @@ fn gen_source(rng: &mut Rng, garbage: bool) -> Op {
         }
         _ => {
             let m = garbage && rng.chance(1, 3);
-            let text = gen_text(rng, t, m);
+            let mut text = gen_text(rng, t, m);
+            if !garbage {
+                // conversion histories (C15) start from *valid* sources: a text
+                // whose raw block hash exceeds the capacity is a parser matter
+                // (C04/C11) and must not be able to take this scenario down
+                let mut guard = 0;
+                while guard < 8 {
+                    match raw_field_lengths(&text) {
+                        Some((l1, l2)) if l1 > 64 || l2 > cap2(t) => {
+                            text = gen_text(rng, t, false);
+                            guard += 1;
+                        }
+                        _ => break,
+                    }
+                }
+                if guard == 8 {
+                    text = b"3::".to_vec();
+                }
+            }
             Op::Parse { dst, text, via: rng.below(3) as u8 }
         }
     }
